@@ -866,10 +866,10 @@ def handleSpec (name : String) (ins ans : List String) : String :=
       | _, _ => "FAIL unparsable"
     | "c05seq" =>
       match arg.splitOn ";", parseSigEvs ans with
-      | [rate, txs], some evs =>
-        match rate.toNat?, (txs.splitOn ",").mapM unhex with
-        | some rate, some txs => optVerdict (Spec.oracleSigC05Seq rate txs evs)
-        | _, _ => "FAIL unparsable"
+      | [rate, n, txs], some evs =>
+        match rate.toNat?, n.toNat?, (txs.splitOn ",").mapM unhex with
+        | some rate, some n, some txs => optVerdict (Spec.oracleSigC05Seq rate n txs evs)
+        | _, _, _ => "FAIL unparsable"
       | _, _ => "FAIL unparsable"
     | "c05one" =>
       match parseScOuts ans with
@@ -902,8 +902,9 @@ def handleSpec (name : String) (ins ans : List String) : String :=
         | bs => s!"FAIL one transmission produced {bs.length} bursts (expected exactly one)"
       | _, _ => "FAIL unparsable"
     | "c09" =>
-      match arg.toNat?, parseSigEvs ans with
-      | some rate, some evs => optVerdict (Spec.oracleSigC09 rate evs)
+      -- arg: rate;number_of_input_samples
+      match (arg.splitOn ";").mapM String.toNat?, parseSigEvs ans with
+      | some [rate, n], some evs => optVerdict (Spec.oracleSigC09 rate n evs)
       | _, _ => "FAIL unparsable"
     | "c14ref" =>
       match ans with
